@@ -66,6 +66,17 @@ add("C04", EXPL,
     "horizon is a livelock. All 8 transports, traffic in one and both directions, connect/accept/handshake phases included.",
     "Liveness reduced to deadlock/livelock freedom of finite goals within bound D and horizon 3000 steps. Virtual time. "
     "Environment emulation trusted as in C01.", "DESIGN.md 2/C04")
+add("C09", EXPL.replace("all schedules and environment-deviation patterns up to a deviation bound", "a complete finite configuration matrix (one forked execution per cell, selected by zero-cost choice points), plus every single deviation on a covering subset"),
+    "The policy x placement x credential x transport matrix is visited completely: side under test {tls.auth, check_time, check_crl} in {0,1}^3 "
+    "(and defaults) x name verification {off, matching, non-matching, no names, DNS hostname in the address} x tls.client natural/reversed x "
+    "placement {connect map, server socket inherited, accept map, accept map overriding opposite server values incl. wrong trust anchors/CRLs "
+    "given the other way} x 20 peer credential kinds (valid, expired, not yet valid, revoked leaf, under revoked/expired/untrusted intermediate, "
+    "wrong name, EKU variants, untrusted root, no certificate at all...) by file or by value x peer permissive/strict, on tls, btls and utls; "
+    "each cell is one real connection run to completion with both ends judged by a policy oracle written from xcm.h. quick: 34,836 cells; "
+    "thorough: 317,064 cells + every single deviation (D<=1) on 736 cells per transport, D<=2 on 12.",
+    "Only fail-open, wrong errno and accepted invalid combinations are violations; stricter-than-documented refusals are INFO. check_time uses "
+    "the real clock (20-day margins on generated validity). OpenSSL's chain building and CRL processing trusted. With tls.auth off no "
+    "condition applies to the peer.", "DESIGN.md 2/C09")
 add("C11", EXPL,
     "Set-histories are enumerated completely inside the explorer through free choice points: every single and every ordered pair of "
     "(attribute, admissible value, life point) with life points = creation map, while resolving (resolver answer withheld), while the "
